@@ -94,6 +94,7 @@ type violation struct {
 	Scenario json.RawMessage `json:"scenario,omitempty"`
 	Trace    []int32         `json:"decisions,omitempty"`
 	Hash     uint64          `json:"hash,omitempty"`
+	History  json.RawMessage `json:"history,omitempty"`
 }
 
 func (v *violation) key() string { return v.Property + "|" + v.Oracle + "|" + v.Class + "|" + v.Site }
@@ -591,11 +592,17 @@ func doCheck(repo, verif, prop string, pc propConf, tier string, seed uint64, wo
 		return 2
 	}
 	detChecked := 0
+	detMismatch := ""
 	for k, h := range det[0].DetHashes {
 		if h2, ok := det[1].DetHashes[k]; !ok || h2 != h {
-			fmt.Fprintf(os.Stderr, "vcheck: DETERMINISM SELF-CHECK FAILED: run index %s digests %d vs %d (machinery bug, not a property violation)\n", k, h, h2)
-			cleanup()
-			return 2
+			// Two processes disagreed on the same run. Either the machinery is not deterministic or
+			// the code under test is not (map iteration order, a real race made visible...). If a
+			// violation is found and reproduces from its replay file it is reported all the same;
+			// without one this run cannot be trusted and ends with exit 2.
+			if detMismatch == "" {
+				detMismatch = fmt.Sprintf("run index %s digests %d vs %d", k, h, h2)
+			}
+			continue
 		}
 		detChecked++
 	}
@@ -721,7 +728,7 @@ func doCheck(repo, verif, prop string, pc propConf, tier string, seed uint64, wo
 				break
 			}
 			raw := filepath.Join(wdir, fmt.Sprintf("raw-%d.json", j))
-			rf := map[string]any{"property": prop, "run_seed": c.RunSeed, "tree": treeID(repo), "scenario": c.Scenario, "decisions": c.Trace,
+			rf := map[string]any{"property": prop, "run_seed": c.RunSeed, "tree": treeID(repo), "scenario": c.Scenario, "decisions": c.Trace, "history": c.History,
 				"violation": map[string]any{"property": c.Property, "oracle": c.Oracle, "class": c.Class, "site": c.Site, "detail": c.Detail, "run_seed": c.RunSeed, "run_index": c.RunIndex},
 				"hash":      c.Hash}
 			rb, _ := json.Marshal(rf)
@@ -768,6 +775,14 @@ func doCheck(repo, verif, prop string, pc propConf, tier string, seed uint64, wo
 		cleanup()
 		return 2
 	}
+	if detMismatch != "" {
+		if exit == 0 {
+			fmt.Fprintf(os.Stderr, "vcheck: DETERMINISM SELF-CHECK FAILED: %s and no violation was found (machinery trouble, or the code under test behaves nondeterministically)\n", detMismatch)
+			cleanup()
+			return 2
+		}
+		fmt.Printf("vcheck: note: the determinism self-check saw differing digests (%s); the reported violations reproduced from their replay files in a fresh process\n", detMismatch)
+	}
 	for _, k := range known {
 		if k.Status == "open" && k.Property == prop {
 			fmt.Printf("KNOWN-FINDING: property=%s %s: %s (observed in %d of %d runs of this invocation)\n", prop, k.ID, k.What, knownObserved[k.ID], tot.Runs)
@@ -801,7 +816,7 @@ func doCheck(repo, verif, prop string, pc propConf, tier string, seed uint64, wo
 		"abstract_transitions":  tot.Transitions.estimate(),
 		"distinct_traces":       tot.Traces.estimate(),
 		"distinct_measure":      measureOf(pc, "abstract state = (len of pool.Empty, pool.Full, Inbound, Outbound, Error, Shutdown, parserShutdown; multiset of (task class, gate kind, gate site) over all tasks; failure seen); transitions = (state, state', class of released task); counts above 16384 are k-minimum-values estimates"),
-		"determinism_selfcheck": map[string]any{"runs_compared": detChecked, "processes": 2, "gomaxprocs": []int{4, 1}, "mismatches": 0},
+		"determinism_selfcheck": map[string]any{"runs_compared": detChecked, "processes": 2, "gomaxprocs": []int{4, 1}, "mismatch": detMismatch},
 		"components":            componentsOf(pc),
 		"instrumentation":       res.Report.Counts,
 		"instrumenter_validated_by_repository_tests": instrValidated,
